@@ -219,11 +219,16 @@ pub fn multisets(w: &[u32], a: usize) -> Vec<Vec<u32>> {
 /// at the bottom and three leaves per level whose weight equals the weight of the subtree two
 /// levels below (so each merge takes the running subtree plus exactly three leaves).
 pub fn chain4(d: u32) -> Vec<u32> {
+    // level 0: four leaves of weight 1 (node_0 = 4); level j >= 1: three leaves of weight g_j with
+    // g_1 = 1 and g_{j+1} = node_{j-1} + 1 (strict, so that the running subtree - not a leaf of the next
+    // group - is the fourth item of every merge); node_j = node_{j-1} + 3 g_j
     let mut freqs: Vec<u64> = vec![1, 1, 1, 1];
-    let mut nodes: Vec<u64> = vec![4]; // node_0
+    let mut nodes: Vec<u64> = vec![4];
+    let mut g: u64 = 1;
     for j in 1..d {
-        let g = if j >= 2 { nodes[(j - 2) as usize] } else { 2 };
-        let g = g.max(*freqs.last().unwrap());
+        if j >= 2 {
+            g = nodes[(j - 2) as usize] + 1;
+        }
         freqs.extend([g, g, g]);
         let prev = *nodes.last().unwrap();
         nodes.push(prev + 3 * g);
@@ -231,15 +236,26 @@ pub fn chain4(d: u32) -> Vec<u32> {
     freqs.iter().map(|&f| f.min(u32::MAX as u64) as u32).collect()
 }
 
-/// Fibonacci-like profile forcing a binary Huffman code of depth d (d+1 symbols).
+/// `m` interleaved copies of the chain4(d) profile: a deep code whose upper levels hold several
+/// internal nodes (deep *and* bushy), unlike the single chain.
+pub fn chain4x(d: u32, m: usize) -> Vec<u32> {
+    let mut v = Vec::new();
+    for f in chain4(d) {
+        for _ in 0..m {
+            v.push(f);
+        }
+    }
+    v
+}
+
+/// Fibonacci profile forcing a binary Huffman code of depth d (d+1 symbols).
 pub fn chain2(d: u32) -> Vec<u32> {
     let mut f: Vec<u64> = vec![1, 1];
     while (f.len() as u32) < d + 1 {
         let n = f.len();
-        let s: u64 = f[..n - 1].iter().sum::<u64>().max(1);
-        // next weight = total of everything but the last: keeps the chain strict
-        f.push(s.max(f[n - 1]));
+        f.push(f[n - 1] + f[n - 2]);
     }
+    f.truncate((d + 1) as usize);
     f.iter().map(|&x| x.min(u32::MAX as u64) as u32).collect()
 }
 
@@ -264,18 +280,19 @@ pub fn group_positions(groups: &[Grp], partial: usize, pk: Grp, lead: usize) -> 
         if count == 0 {
             return;
         }
-        // span = last - first for a full group of 1024
+        // span = last - first of the group (full or partial): the dense/sparse decision of DArray
+        // looks at exactly this quantity
+        let c1 = count - 1;
         let span = match kind {
-            Grp::D => 1023,          // consecutive ones
-            Grp::D1 => 1023 * 40,    // dense but spread over many words
-            Grp::T0 => 65534,        // last-first = 65534 < 65536 -> dense (span 65535 bits)
-            Grp::T1 => 65535,        // last-first = 65535 < 65536 -> dense, largest dense
-            Grp::T2 => 65536,        // last-first = 65536 -> sparse, smallest sparse
-            Grp::S => 1023 * 70,     // sparse
+            Grp::D => c1,                      // consecutive ones
+            Grp::D1 => c1 * 40,                // dense but spread over many words
+            Grp::T0 => 65534.max(c1),          // < 65536: dense
+            Grp::T1 => 65535.max(c1),          // < 65536: the largest dense span
+            Grp::T2 => 65536.max(c1),          // = 65536: the smallest sparse span
+            Grp::S => (c1 * 70).max(70_000),   // sparse
         };
         for i in 0..count {
-            // spread evenly, last one exactly at span when the group is full
-            let off = if count == 1 { 0 } else { (span as u128 * i as u128 / 1023u128) as usize };
+            let off = if count == 1 { 0 } else { (span as u128 * i as u128 / c1 as u128) as usize };
             pos.push(*cur + off);
         }
         *cur = pos.last().unwrap() + 1 + (kind as usize % 3);
